@@ -389,7 +389,12 @@ pub fn worker<C: Campaign>(c: &C, tier: Tier, master: u64, shard: u64, shards: u
         }
         idx += 1;
     }
+    let op_steps: BTreeMap<String, u64> = crate::world::ALL_INSTRUCTIONS[..56]
+        .iter()
+        .map(|i| (format!("{:?}", i), crate::world::OP_STEPS[*i as usize].load(std::sync::atomic::Ordering::Relaxed)))
+        .collect();
     let summary = json!({
+        "op_steps": op_steps,
         "capped": capped, "runs": runs, "verdicts": verdicts, "abstains": abstains, "stats": agg_stats, "probes": probes,
         "sched": sched.iter().collect::<Vec<_>>(), "states": states.iter().collect::<Vec<_>>(),
         "nontrivial": nontrivial.iter().collect::<Vec<_>>(), "samples": samples,
@@ -409,6 +414,7 @@ pub struct Merged {
     pub abstains: BTreeMap<String, u64>,
     pub stats: BTreeMap<String, u64>,
     pub probes: BTreeMap<String, u64>,
+    pub op_steps: BTreeMap<String, u64>,
     pub sched: BTreeSet<u64>,
     pub states: BTreeSet<u64>,
     pub nontrivial: BTreeSet<u64>,
@@ -476,6 +482,7 @@ pub fn drive(prop: &str, tier: Tier, master: u64, shards: u64, total: u64, hashe
         abstains: BTreeMap::new(),
         stats: BTreeMap::new(),
         probes: BTreeMap::new(),
+        op_steps: BTreeMap::new(),
         sched: BTreeSet::new(),
         states: BTreeSet::new(),
         nontrivial: BTreeSet::new(),
@@ -514,7 +521,7 @@ pub fn drive(prop: &str, tier: Tier, master: u64, shards: u64, total: u64, hashe
                         m.runs += v["runs"].as_u64().unwrap_or(0);
                         m.capped |= v["capped"].as_bool().unwrap_or(false);
                         m.verdicts += v["verdicts"].as_u64().unwrap_or(0);
-                        for (name, field) in [("abstains", &mut m.abstains), ("stats", &mut m.stats), ("probes", &mut m.probes)] {
+                        for (name, field) in [("abstains", &mut m.abstains), ("stats", &mut m.stats), ("probes", &mut m.probes), ("op_steps", &mut m.op_steps)] {
                             if let Some(o) = v[name].as_object() {
                                 for (kk, vv) in o {
                                     *field.entry(kk.clone()).or_insert(0) += vv.as_u64().unwrap_or(0);
@@ -697,6 +704,11 @@ pub fn check<C: Campaign>(c: &C, a: &CheckArgs) -> i32 {
             "distinct_states": m.states.len(),
             "counters": m.stats,
             "probes_hit_in_runs": m.probes,
+            "instruction_reach": {
+                "measure": "how often each of the runtime's instructions was stepped by this check (all shards); an instruction at 0 is outside this check's workload",
+                "steps_by_instruction": m.op_steps,
+                "never_stepped": m.op_steps.iter().filter(|(_, v)| **v == 0).map(|(k, _)| k.clone()).collect::<Vec<_>>(),
+            },
             "known_findings_reproduced": known_hit.iter().map(|(k, v)| (k.clone(), v.1)).collect::<BTreeMap<_, _>>(),
             "foreign_panics_seen": m.foreign_panics.len(),
             "isolated_scenarios_run_in_their_own_process": isolated_run,
